@@ -224,6 +224,29 @@ TotalDeltaLaw ==
         IN p2.ok /\ p2.d.del = p.d.del /\ SameSnap(p2.d.upd, p.d.upd)
      /\ LET ap == Apply(base, p.d) IN IF ap.ok THEN AcceptedOK(ap.s) ELSE ap.e \in ApplyErrors
 
+\* hostile registries (C11 follow-up operations: recycle + add_item of a new UUID type): numbers
+\* below 0x4000, above 0x7fff, climbing in steps of 255 up to 0x8000 / 0xffff, types beyond the
+\* signed-key boundary next to taken numbers
+RegChain(start, step, upto) == {start + step * j : j \in 0..((upto - start) \div step)}
+RegSnap(ids, extra) == [k \in {<<TypeEx, id>> : id \in ids} |-> <<k[2], 0, 0, 0>>] @@ extra
+RegCases ==
+  {RegSnap({12}, EmptySnap), RegSnap({16383}, EmptySnap), RegSnap({16384, 16385}, EmptySnap),
+   RegSnap({16384, 32768}, (<<32768, 0>> :> <<>>)), RegSnap({32767}, (<<32767, 1>> :> <<1>>)),
+   RegSnap({65535}, (<<65535, 65535>> :> <<>>)), RegSnap({16384, 16700}, EmptySnap),
+   RegSnap(RegChain(16639, 255, 32768) \cup {32768}, EmptySnap),
+   RegSnap(RegChain(16639, 255, 32767), EmptySnap),
+   RegSnap(RegChain(16639, 255, 65535) \cup {65535}, EmptySnap),
+   RegSnap(RegChain(16384, 1, 16384 + 300), (<<16400, 0>> :> <<7>>))}
+RegAdds2 == << [ty |-> U1, i |-> 9, d |-> <<1>>], [ty |-> U3, i |-> 0, d |-> <<2, 3>>], [ty |-> <<16384, 0, 0, 0>>, i |-> 1, d |-> <<>>] >>
+InitRegistry ==
+  \E S \in RegCases :
+    \/ c = [op |-> "parse", kind |-> "si", w |-> WireInts(S), adds2 |-> RegAdds2, other |-> COther]
+    \/ c = [op |-> "parse", kind |-> "sb", w |-> WireBytes(S), adds2 |-> RegAdds2, other |-> COther]
+    \* the same snapshots arriving as a delta from the empty snapshot
+    \/ c = [op |-> "parse", kind |-> "di", w |-> DeltaWire(Delta(EmptySnap, S), OszNone), adds2 |-> RegAdds2,
+            other |-> COther, base |-> WireInts(EmptySnap), osz |-> <<>>]
+RegistryLaw == IF c.kind = "di" THEN TotalDeltaLaw ELSE TotalSnapLaw
+
 \* ------------------------------------------------------------------ family big (real limits)
 \* n items of type ty (ids 0..n-1), lengths chosen so that the total number of data integers is `ints`
 BigSnap(ty, n, ints) ==
